@@ -5,6 +5,7 @@ import ast
 import contextlib
 import io
 import math
+import os
 
 import numpy as np
 
@@ -40,10 +41,25 @@ ASSUMPTIONS = [
     "log-variables have positive steady levels and changes",
 ]
 MANIFEST = {
-    "technique": "Coq proof over the reals of a model of the steady-state plumbing (formulas regenerated from the source); "
-                 "bit-exact PrimFloat correspondence through Simultaneous.steady with the solver recorded as an oracle",
-    "level_text": "see props/C05.v",
-    "level_note": "partial: solver convergence is external; 'every date' only for flat / affine / log-affine equations",
+    "technique": "Coq proof over the reals of an executable model of the steady-state plumbing (cell formulas, constants and "
+                 "stacked linear systems regenerated from the source on every run); bit-exact PrimFloat correspondence of the "
+                 "same model text driven through Simultaneous.steady with the solver / lstsq recorded as oracles",
+    "level_text": "Theorems (props/C05.v), for all models, sizes, blocks, guesses: (1) the steady array row of a quantity is "
+                  "level+change*shift, or level*change^shift for log-variables, at every column; (2) writing the final guess back "
+                  "and reading it again returns the guess on the solved cells, every other cell of the variant is unchanged (fixed / "
+                  "exogenized quantities, non-endogenized parameters); (3) the vector handed to the solver is exactly the block's "
+                  "steady equations on the path of the levels/changes stored after write-back, at t (flat) / t and t+1 (growth), so "
+                  "max-norm < tol means each equation is within tol there; (4) at every date: flat paths, residuals affine in time, "
+                  "monomial = monomial equations on geometric paths; (5) blocks solved one after another in a block-triangular order "
+                  "(or one joint block) leave ALL equations holding on the finally stored path -- proved for the model of the whole "
+                  "_steady_nonlinear loop incl. plan bookkeeping; (6) an exact solution of the stacked linear system satisfies the "
+                  "transition and measurement equations on Xi+t*dXi at every date.",
+    "level_note": "partial. Not proved: solver convergence (oracle; conclusions are conditional on its reported residual); 'every "
+                  "date' for general nonlinear growth models (refuted for the algorithm: C05_two_dates_do_not_suffice; the general "
+                  "statement is C05_every_date_partial = dates t and t+1, other dates are searched by the falsifier); rounding "
+                  "(theorems over R, code tied bit-exactly on floats with numpy log/exp/power as recorded tables). Trusted: Coq kernel "
+                  "+ vm_compute, translator/steady.py, the harness, Equation.xtring as the parser's output (C04), blazer's block "
+                  "list (C16), the first-order system matrices of linear models (C01/C02), Reals axioms.",
 }
 
 
@@ -343,6 +359,20 @@ def _gen_stat(rng, with_trend: bool) -> dict:
                 other = var(d, 0) if d in logs else fexp(var(d, 0))
                 eqs.append({"lhs": var(f), "rhs": mul(var(nm), other), "form": "followlog", "own": f})
             allnames.append(f)
+    # measurement variables / equations (observed = state + constant + measurement shock)
+    mvars, mshocks, meqs = [], [], []
+    if rng.random() < 0.35:
+        for d in rng.sample(allnames, min(len(allnames), rng.choice([1, 1, 2]))):
+            nm = "ob_" + d
+            k = f"k_{nm}"
+            params[k] = _r(rng, -1.0, 1.0)
+            rhs = [term(d, 0), par(k)]
+            if rng.random() < 0.6:
+                me = f"me_{nm}"
+                mshocks.append(me)
+                rhs.append(shk(me))
+            meqs.append({"lhs": var(nm), "rhs": sum_terms(rhs), "form": "meas", "own": nm})
+            mvars.append(nm)
     linear_ok = all(e["form"] in ("lin", "loglin", "rw", "follow") for e in eqs)
     order = list(range(len(eqs)))
     rng.shuffle(order)
@@ -352,9 +382,12 @@ def _gen_stat(rng, with_trend: bool) -> dict:
     has_trend = bool(trend)
     linear = linear_ok and want_linear
     flat = (not has_trend) and rng.random() < 0.5
-    return {"vars": decl, "logs": [v for v in decl if v in logs], "params": params, "shocks": shocks, "eqs": eqs,
+    trendy = {t["name"] for t in trend} | {e["own"] for e in eqs if e["form"] in ("follow", "followlog")}
+    return {"vars": decl + mvars, "tvars": decl, "mvars": mvars, "mshocks": mshocks, "meqs": meqs,
+            "logs": [v for v in decl if v in logs], "params": params, "shocks": shocks, "eqs": eqs + meqs,
             "linear": linear, "flat": flat, "trend": [t["name"] for t in trend],
-            "followers": [e["own"] for e in eqs if e["form"] in ("follow", "followlog")]}
+            "followers": [e["own"] for e in eqs if e["form"] in ("follow", "followlog")]
+                         + [e["own"] for e in meqs if e["own"][3:] in trendy]}
 
 
 def _drop_shocks(t):
@@ -484,17 +517,35 @@ def _gen_plan(rng, spec):
 
 def source_text(spec) -> str:
     full = spec["full_parens"]
-    lines = ["!variables", "    " + ", ".join(spec["vars"])]
-    if spec["logs"]:
-        lines += ["!log-variables", "    " + ", ".join(spec["logs"])]
-    lines += ["!parameters", "    " + ", ".join(spec["params"])]
-    lines += ["!shocks", "    " + ", ".join(spec["shocks"])]
-    lines.append("!equations")
-    for e in spec["eqs"]:
+    mvars = spec.get("mvars") or []
+
+    def eq_line(e):
         s = f"    {render(e['lhs'], full)} = {render(e['rhs'], full)}"
         if "steady" in e:
             s += f" !! {render(e['steady']['lhs'], full)} = {render(e['steady']['rhs'], full)}"
-        lines.append(s + ";")
+        return s + ";"
+    if not mvars:
+        lines = ["!variables", "    " + ", ".join(spec["vars"])]
+        if spec["logs"]:
+            lines += ["!log-variables", "    " + ", ".join(spec["logs"])]
+        lines += ["!parameters", "    " + ", ".join(spec["params"])]
+        lines += ["!shocks", "    " + ", ".join(spec["shocks"])]
+        lines.append("!equations")
+        lines += [eq_line(e) for e in spec["eqs"]]
+        return "\n".join(lines) + "\n"
+    meq_names = {id(e) for e in spec["meqs"]}
+    lines = ["!transition-variables", "    " + ", ".join(spec["tvars"])]
+    lines += ["!measurement-variables", "    " + ", ".join(mvars)]
+    if spec["logs"]:
+        lines += ["!log-variables", "    " + ", ".join(spec["logs"])]
+    lines += ["!parameters", "    " + ", ".join(spec["params"])]
+    lines += ["!transition-shocks", "    " + ", ".join(spec["shocks"])]
+    if spec["mshocks"]:
+        lines += ["!measurement-shocks", "    " + ", ".join(spec["mshocks"])]
+    lines.append("!transition-equations")
+    lines += [eq_line(e) for e in spec["eqs"] if e["form"] != "meas"]
+    lines.append("!measurement-equations")
+    lines += [eq_line(e) for e in spec["eqs"] if e["form"] == "meas"]
     return "\n".join(lines) + "\n"
 
 
@@ -1095,7 +1146,7 @@ def shard_text(nl_cases, lin_cases) -> str:
 FALSIFY_DATES = (-3, -2, -1, 0, 1, 2, 3, 5)
 FALSIFY_RTOL = 1e-8
 # equation forms of the generator whose residual on a steady path is affine in time or geometric = geometric
-EVERY_DATE_FORMS = ("lin", "loglin", "rw", "follow", "rwlog", "followlog", "geo")
+EVERY_DATE_FORMS = ("lin", "loglin", "rw", "follow", "rwlog", "followlog", "geo", "meas")
 
 
 def _unpack(d, name, i):
@@ -1269,7 +1320,7 @@ _CACHE = {}
 def _runs(ctx):
     key = (ctx.seed, ctx.tier)
     if key not in _CACHE:
-        n = ctx.scale(240, 8000)
+        n = int(os.environ.get("VERIF_C05_MODELS", 0)) or ctx.scale(240, 8000)     # override: development only
         specs = [gen_spec(ctx.rng) for _ in range(n)]
         _CACHE[key] = (specs, run_many(specs, ctx.work))
     return _CACHE[key]
@@ -1316,7 +1367,7 @@ def correspondence(ctx) -> CorrResult:
             "too few generated models complete steady() without error", dist["errors"], ">= 60%",
             f"{dist['completed']}/{len(specs)}"))
     # shards
-    per_nl, per_lin = 40, 20
+    per_nl, per_lin = ctx.scale(40, 100), ctx.scale(20, 50)
     nsh = max(1, math.ceil(len(nl_all) / per_nl), math.ceil(len(lin_all) / per_lin))
     shards = []
     for k in range(nsh):
@@ -1338,7 +1389,9 @@ def correspondence(ctx) -> CorrResult:
             res.disagreements.append(Disagreement(f"cases shard {k}: unparsable output", None, outp[-800:], None))
             continue
         import re
-        for i, d in re.findall(r"\((\d+), (\d+)\)", bodies[0]):
+        differing = set()
+        for i, d in re.findall(r"\((\d+)(?:%nat)?, (\d+)(?:%nat)?\)", bodies[0]):
+            differing.add(int(i))
             spec, c = a[int(i)]
             res.disagreements.append(Disagreement(f"nonlinear:{comp[int(d)]}",
                                                   {"source": source_text(spec), "plan": spec["plan"], "flat": spec["flat"],
@@ -1347,7 +1400,7 @@ def correspondence(ctx) -> CorrResult:
                                                   "model result differs in: " + comp[int(d)], c["expect"]))
         flags = re.findall(r"true|false", bodies[1])
         for i, fl in enumerate(flags):
-            if fl == "false":
+            if fl == "false" and i not in differing:
                 spec, c = a[i]
                 res.disagreements.append(Disagreement("success-criterion", {"source": source_text(spec)},
                                                       "solver reported success, so max|residual| < tolerance",
